@@ -100,6 +100,18 @@ FIRST_MISS = {
  "C15-m1": "no negative float values -> C15 *_neg* spaces",
  "C15-m2": "no pure translation among the transforms -> C15 transform set {identity, translate, flip_y, scale_shift, general}",
  "C18-m2": "exclusion values were always representable in the raster dtype -> C18 trimx spaces",
+ "C02-w2m1": "no value close to (but different from) nodata -> C02 near_nd* spaces (nextafter, +5e-9, x(1+5e-6))",
+ "C04-w2m1": "all rasters were C-ordered -> C02/C04 mem* spaces (zones/values independently C, F, transposed view)",
+ "C04-w2m2": "absent requested ids were only larger than all zones -> C02 gap_* / C04 asel_* spaces (absent ids below, between, above)",
+ "C05-w2m2": "quick had only square or wide terrains -> C05 full_3x2 / 4x2 / dev_6x4 spaces (every shape family tall and wide)",
+ "C07-w2m1": "only default targets were used on Dask (extension made on reading the report, before a detection run) -> C07 explicit_target_values_3x4 (0 among target_values)",
+ "C07-w2m2": "results were only computed one at a time (extension made on reading the report) -> C07 joint_compute_proximity_family",
+ "C11-w2m1": "results were only computed one at a time -> C07 joint_compute_proximity_family group different_coordinates",
+ "C08-w2m2": "all gradients were >= 1/8 -> C08 scaled_4L (vertical scales 1e-9, 1e-6, 1e3)",
+ "C13-w2m2": "bands were always C-ordered -> C13 <index>_mem spaces (per-band C / F / transposed / strided)",
+ "C14-w2m1": "barrier lists were ascending -> C14 paths_2x2_fb3_lists (every permutation of 2-3 barrier values)",
+ "C15-w2m1": "rasters and masks were always C-ordered -> C15 *_rF/_rT/_rS layout spaces",
+ "C18-w2m1": "rasters were always C-ordered -> C18 layout parameter (C, F, T) on trim and crop spaces",
  "C19-m1": "detected, but the per-case replay could not reproduce a history-dependent failure (HARNESS-ERROR) -> runner confirms by replaying the shard prefix as a history",
 }
 
